@@ -58,6 +58,27 @@ def cycle_attempt(op, before):
     return any(a in anc for a in args)
 
 
+def doomed_by(w, op):
+    """the elements `decompose()` / `clear(decompose=True)` is documented to destroy: the subtree of the element / of each child"""
+    if op[:3] not in ("de:", "cd:") or op.split(":")[1] not in w.objs:
+        return None
+    tgt = w.objs[op.split(":")[1]]
+    return heapsim.subtree(tgt) if op[:3] == "de:" else [x for c in getattr(tgt, "contents", []) for x in heapsim.subtree(c)]
+
+
+def destroyed_wrong(w, doomed, dead_ids):
+    """after the call: exactly the doomed elements (and those destroyed earlier) report `.decomposed`; a destroyed Tag has no children"""
+    from bs4.element import Tag
+    dead_ids.update(id(x) for x in doomed)
+    wrong = next((o for o in w.keep if bool(o.decomposed) != (id(o) in dead_ids)), None)
+    if wrong is None:
+        wrong = next((o for o in doomed if isinstance(o, Tag) and o.contents), None)
+    if wrong is None:
+        return None
+    return ("was destroyed although it is not beneath the element" if wrong.decomposed and id(wrong) not in dead_ids else
+            "is beneath the element but was not destroyed" if not wrong.decomposed else "was destroyed but still has children")
+
+
 def run_history(ctx, rng, steps, stream, ops_fixed=None, kinds_fixed=None, parsed=None):
     if kinds_fixed is None:
         parsed = rng.random() < 0.4
@@ -68,6 +89,7 @@ def run_history(ctx, rng, steps, stream, ops_fixed=None, kinds_fixed=None, parse
     for op in prefix:
         spec.apply(op)
     stats = Counter()
+    dead_ids = set()
     ops = list(prefix)
     outcomes = [None] * len(prefix)
     shapes = [None] * len(prefix)
@@ -82,7 +104,18 @@ def run_history(ctx, rng, steps, stream, ops_fixed=None, kinds_fixed=None, parse
             break
         ops.append(op)
         before = shape_of_world(w)
+        # decompose() / clear(decompose=True): exactly the elements of the subtree (of the element / of each child) are destroyed - the
+        # documented observable is `.decomposed` - and a destroyed Tag has no children (Props/C02 decompose_effect, clear_decompose_effect)
+        doomed = doomed_by(w, op)
         st = w.apply(op)
+        if doomed is not None and st == "ok":
+            ctx.count("decompose:destroyed-elements", len(doomed))
+            what = destroyed_wrong(w, doomed, dead_ids)
+            if what:
+                ctx.violation(f"{op}: an element {what} (destroyed {len(doomed)} expected)",
+                              case={"kinds": kinds, "ops": ops, "parsed": bool(parsed), "before": before, "twin": getattr(w, "twin_choices", None)},
+                              expected=f"{len(doomed)} destroyed", observed=what, stream=stream)
+                break
         ctx.count("op:" + op.split(":")[0])
         ctx.count("outcome:" + st)
         outcomes.append(st)
@@ -431,7 +464,8 @@ def run(ctx: Ctx):
                 "smooth-squash stream: random trees with runs of strings (empty strings, NavigableString subclasses, Comment/CData/... between "
                 "them, nested tags, BeautifulSoup roots); the children of every tag of the subtree after smooth(), by identity and text, vs the "
                 "direct oracle (runs of >= 2 plain strings become one new string) and vs the Lean model's squashId (spec) and smooth (code mirror); "
-                "non-trivial = at least one run was merged")
+                "non-trivial = at least one run was merged. After every decompose() / clear(decompose=True) of the histories: exactly the elements of "
+                "the subtree report .decomposed, and a destroyed Tag has no children")
     ctx.assumptions = ["calls that would put an element beneath itself are never generated (outside the quantifier)",
                        "positions are any Python integers: negative ones count from the end as in list.insert (Model/Heap.lean normPos)"]
     drv = Driver()
@@ -498,11 +532,19 @@ def replay(path):
         return 1
     w = heapsim.World(c["kinds"], twin_choices=c.get("twin"))
     spec = heapsim.Spec(c["kinds"])
+    dead_ids = set()
     for i, op in enumerate(c["ops"]):
+        doomed = doomed_by(w, op)
         st = w.apply(op)
         if st != "ok":
             print(i, op, st)
             break
+        if doomed is not None:
+            what = destroyed_wrong(w, doomed, dead_ids)
+            if what:
+                print(i, op, st)
+                print(f"property C02 violated: after {op} an element {what}")
+                return 1
         spec.apply(op)
         got, want = shape_of_world(w), spec.shape()
         bad = [(l, k, want.get(l)) for l, k in got.items() if want.get(l) != k]
